@@ -17,7 +17,7 @@ use debruijn::dna_string::DnaString;
 use debruijn::filter::{filter_kmers, remove_censored_exts, remove_censored_exts_sharded, CountFilter, CountFilterSet, KmerSummarizer};
 use debruijn::graph::{BaseGraph, DebruijnGraph};
 use debruijn::msp::msp_sequence;
-use debruijn::vmer::Lmer3;
+use debruijn::vmer::{Lmer1, Lmer2, Lmer3};
 use debruijn::{verif_hooks, DnaBytes, Exts, Kmer, Vmer};
 use serde::de::DeserializeOwned;
 use serde::{Deserialize, Serialize};
@@ -51,6 +51,8 @@ pub enum Container {
     DnaString,
     DnaBytes,
     Lmer3,
+    /// smallest fixed-size container that holds 2K-P bases (Lmer1: 28, Lmer2: 60, Lmer3: 92)
+    LmerTight,
 }
 
 #[derive(Clone, Debug, Serialize, Deserialize, PartialEq)]
@@ -439,6 +441,18 @@ where
                 run_v::<K, P, DnaBytes>(c, rec)
             }
         }
+        Container::LmerTight => {
+            let need = 2 * K::k() - P::k();
+            if need <= 28 {
+                run_v::<K, P, Lmer1>(c, rec)
+            } else if need <= 60 {
+                run_v::<K, P, Lmer2>(c, rec)
+            } else if need <= 92 {
+                run_v::<K, P, Lmer3>(c, rec)
+            } else {
+                run_v::<K, P, DnaBytes>(c, rec)
+            }
+        }
     }
 }
 
@@ -512,9 +526,16 @@ impl Harness for C04 {
                 _ => rng.below(3) as u8,
             })
             .collect();
-        let container = match rng.below(5) {
+        let container = match rng.below(6) {
             0 | 1 => Container::DnaString,
             2 | 3 => Container::DnaBytes,
+            4 => {
+                if 2 * k - k_of(pair.1) <= 92 {
+                    Container::LmerTight
+                } else {
+                    Container::DnaBytes
+                }
+            }
             _ => {
                 if lmer_fits(pair.0, pair.1) {
                     Container::Lmer3
